@@ -13,7 +13,7 @@ GInit == Init /\ hist = <<>>
 GNext == \/ ProposePhase /\ Log([a |-> "propose", r |-> gr, proposer |-> Proposer(gr), prop |-> prop'])
          \/ \E f \in [Corr -> Values \cup {Nil, None}] :
               PrevotePhaseF(f) /\ Log([a |-> "prevote", r |-> gr, f |-> f, polka |-> polka'[gr]])
-         \/ \E g \in [Corr -> {"abstain","timeout","lock","nilpolka"}] :
+         \/ \E g \in [Corr -> PcKinds] :
               PrecommitPhaseG(g) /\ Log([a |-> "precommit", r |-> gr, g |-> g, polka |-> polka[gr], pcq |-> pcq'[gr]])
          \/ NextRound /\ Log([a |-> "nextround", r |-> gr])
          \/ \E i \in Corr, r \in Rounds : UnlockR(i, r) /\ Log([a |-> "unlock", i |-> i, r |-> r, val |-> polka[r]])
